@@ -377,7 +377,7 @@ def _read_healsparse_fits_file_and_degrade(filename, pixels, nside_out, reductio
 
         # Which pixels are in the coverage map?
         cov_pix, = np.where(cov_map.coverage_mask)
-        sub = np.clip(np.searchsorted(cov_pix, _pixels), 0, cov_pix.size)
+        sub = np.clip(np.searchsorted(cov_pix, _pixels), 0, cov_pix.size - 1)
         ok, = np.where(cov_pix[sub] == _pixels)
         if ok.size == 0:
             raise RuntimeError("None of the specified pixels are in the coverage map.")
